@@ -3,7 +3,7 @@
     by non-trivial grids. *)
 From Coq Require Import Ascii String List Bool PArith NArith FMapPositive Permutation Lia.
 From PTBase Require Import Exn PyStr.
-From P Require Import Assoc GridEdit GridLemmas Inv InvRock InvBlock InvConn InvRename InvReorder InvMinc InvAdd InvEmbed InvDec Reach.
+From P Require Import Assoc GridEdit GridLemmas Inv InvRock InvBlock InvConn InvRename InvReorder InvMinc InvAdd InvEmbed InvDec InvAfter Reach.
 Import ListNotations.
 Open Scope list_scope.
 
@@ -167,3 +167,58 @@ Example mixed_sequence_pre : pre_all g_ab ops_mix.
 Proof. cbn [pre_all ops_mix pre]. repeat grid_step. Qed.
 Example mixed_sequence_runs : exists g', run g_ab ops_mix = Ok g' /\ length (blist g') = 5%nat /\ length (clist g') = 3%nat.
 Proof. eexists. split; [vm_compute; reflexivity|]. vm_compute. auto. Qed.
+
+(** ** rename_blocks with the default fix_blocknames: a map written in the (a3, i2) spelling of TOUGH2 *)
+Definition ab101 : str := s2l "ab101".
+Definition ab102 : str := s2l "ab102".
+Definition g_fix : grid := result (run empty [AddRock r1; AddBlock ab101 r1; AddBlock ab102 r1; AddConn ab101 ab102]).
+Example fix_mapping_example :
+  fix_block_mapping [(s2l "ab1 1", s2l "cd1 1"); (ab102, s2l "ab1 1")] = Ok [(ab102, ab101); (ab101, s2l "cd101")].
+Proof. vm_compute. reflexivity. Qed.
+(** 'ab1 1' -> 'cd1 1' renames block ab101 to cd101, ab102 takes the name ab101; every record follows *)
+Example rename_fix_example :
+  exists g', step g_fix (RenameFix [(s2l "ab1 1", s2l "cd1 1"); (ab102, s2l "ab1 1")]) = Ok g' /\
+             map (bn g') (blist g') = [s2l "cd101"; ab101] /\ map fst (cdict g') = [(s2l "cd101", ab101)] /\
+             cn g' 2%positive = [(s2l "cd101", ab101)] /\ inv_b g' = true.
+Proof. eexists. split; [vm_compute; reflexivity|]. vm_compute. auto. Qed.
+
+(** ** refused edits: the caller catches the exception and goes on *)
+Definition nope : str := s2l "nope1".
+Definition ops_refused : list op :=
+  [RenRock r1 r1;                       (* Exception: the target name exists *)
+   Demote [b1; nope; a1];               (* TypeError at the unknown name, after b was demoted *)
+   AddBlock c1n r3;                     (* KeyError: no such rock type *)
+   Minc mb1 mr1 1 [a1; a1] [];          (* Exception: the second pass meets the matrix block of the first *)
+   Reorder [] [(b1, a1); (nope, a1)];   (* Exception at the unknown pair, after the first connection was reversed *)
+   AddConn a1 (s2l "1 a 1")].
+Example refused_sequence_pre : pre_on g_pair ops_refused.
+Proof.
+  cbn [pre_on ops_refused pre pre_after]. repeat split; try exact I;
+    try (match goal with H : reorder _ _ _ = Ok _ |- _ => vm_compute in H; discriminate H end).
+  - intros i Hi En. vm_compute in Hi. destruct Hi as [<-|[<-|[]]]; vm_compute; reflexivity.
+  - intros old Ho. vm_compute in Ho. discriminate Ho.
+  - intros l N. exfalso. apply N. reflexivity.
+Qed.
+(** five of the six edits are refused; the grid ends with 3 blocks (a, b and a's matrix block) and 2 connections, a-b reversed *)
+Example refused_sequence_runs :
+  map (fun o => match step g_pair o with Ok _ => true | Raise _ => false end) [RenRock r1 r1; AddBlock c1n r3] = [false; false] /\
+  map (bn (run_on g_pair ops_refused)) (blist (run_on g_pair ops_refused)) = [a1; b1; s2l "1 a 1"] /\
+  map fst (cdict (run_on g_pair ops_refused)) = [(a1, s2l "1 a 1"); (b1, a1)] /\
+  inv_b (run_on g_pair ops_refused) = true.
+Proof. vm_compute. auto. Qed.
+
+(** finding delete_connection:self-connection: a block connected with itself records the connection name once;
+    delete_connection (and delete_block, which calls it) removes it once per end, raises KeyError at the second end
+    and leaves the connection in the grid without its record *)
+Definition g_self : grid := result (run empty [AddRock r1; AddBlock a1 r1; AddConn a1 a1]).
+Lemma g_self_inv : Inv g_self.
+Proof. apply inv_b_sound. vm_compute. reflexivity. Qed.
+Theorem delete_self_connection_refuted :
+  exists g a, Inv g /\ step g (DelConn a a) = Raise KeyError /\ step g (DelBlock a) = Raise KeyError /\
+              ~ Inv (after g (DelConn a a)) /\ ~ Inv (after g (DelBlock a)).
+Proof.
+  exists g_self, a1. split; [exact g_self_inv|]. split; [vm_compute; reflexivity|]. split; [vm_compute; reflexivity|].
+  split; intro X.
+  - assert (K := proj2 (i_back _ X 2%positive ltac:(vm_compute; auto) (a1, a1))). vm_compute in K. apply K. exists 3%positive. auto.
+  - assert (K := proj2 (i_back _ X 2%positive ltac:(vm_compute; auto) (a1, a1))). vm_compute in K. apply K. exists 3%positive. auto.
+Qed.
